@@ -380,6 +380,9 @@ func c01Hole(r *rand.Rand, h string, depth int) string {
 	if s, ok := c01HoleR4(r, h); ok {
 		return s
 	}
+	if s, ok := c01HoleR5(r, h); ok {
+		return s
+	}
 	if depth < 2 && r.Intn(100) < 14 {
 		switch x := r.Intn(10); {
 		case x < 2:
